@@ -33,9 +33,9 @@ Proof. intros Hs p H. injection H as <-. now exists c. Qed.
 
 (* ---------------------------------------------------------------- None *)
 Lemma none_from C T : from_python C T PNone = Ok PNone.
-Proof. destruct T as [l|l| | | | | | | | | | | |s p| |s p q|vals| | | | | ]; reflexivity. Qed.
+Proof. destruct T as [l|l| | | | | | | | | | | |s p| |s p q|vals| | | | | | ]; reflexivity. Qed.
 Lemma none_to C T : to_python C T PNone = Ok PNone.
-Proof. destruct T as [l|l| | | | | | | | | | | |s p| |s p q|vals| | | | | ]; try reflexivity. destruct q; reflexivity. Qed.
+Proof. destruct T as [l|l| | | | | | | | | | | |s p| |s p q|vals| | | | | | ]; try reflexivity. destruct q; reflexivity. Qed.
 Lemma store_null C a : sqlite_store C a s_NULL = Ok SNull.
 Proof. reflexivity. Qed.
 Lemma unwrap_none T : fk_unwrap T PNone = PNone.
